@@ -4,6 +4,8 @@ import (
 	"context"
 	"errors"
 	"fmt"
+	"math"
+	"math/big"
 
 	"go.etcd.io/bbolt"
 )
@@ -115,7 +117,17 @@ func (p *PPM) Value() int64 {
 
 // Compute calculates the premium in satoshis for a given amount in satoshis.
 func (p *PPM) Compute(amtSat uint64) (sat int64) {
-	return int64(amtSat) * p.ppmValue / premiumRateParts
+	// The product of amount and rate does not fit into an int64 for large
+	// amounts: compute it with arbitrary precision and saturate the result.
+	product := new(big.Int).Mul(new(big.Int).SetUint64(amtSat), big.NewInt(p.ppmValue))
+	quotient := product.Quo(product, big.NewInt(premiumRateParts)) // truncates toward zero
+	if !quotient.IsInt64() {
+		if quotient.Sign() < 0 {
+			return math.MinInt64
+		}
+		return math.MaxInt64
+	}
+	return quotient.Int64()
 }
 
 // Premium rate operations
